@@ -22,7 +22,7 @@ from hypergraph.runners._shared.event_helpers import (
     build_route_decision_event,
 )
 from hypergraph.runners._shared.helpers import collect_inputs_for_node
-from hypergraph.runners._shared.types import GraphState, NodeExecution
+from hypergraph.runners._shared.types import GraphState, NodeExecution, PauseExecution
 
 if TYPE_CHECKING:
     from hypergraph.cache import CacheBackend
@@ -190,6 +190,10 @@ async def run_superstep_async(
         if isinstance(first_error, ExecutionError):
             raise first_error
         if not isinstance(first_error, Exception):
+            # A pause reports what this superstep completed alongside it, exactly
+            # as a failure does (siblings of a paused nested graph have run).
+            if isinstance(first_error, PauseExecution):
+                first_error._partial_state = new_state  # type: ignore[attr-defined]
             raise first_error
         raise ExecutionError(first_error, new_state) from first_error
 
